@@ -280,6 +280,7 @@ func runC05(t *testing.T, sc *Scenario) Result {
 	var conns []c05Conn
 	var fileLines []string
 	fileRead := false
+	fileMust := 0
 	switch sc.ParamStr("workload", "") {
 	case "hostile":
 		obs, _ = runHostile(t, sc, &res, nil, nil)
@@ -327,6 +328,9 @@ func runC05(t *testing.T, sc *Scenario) Result {
 			if w.Obs.BootErr != "" {
 				return
 			}
+			// everything sent up to here must be in the file after the channel's flush interval; what is sent while
+			// waiting (a heartbeat) may or may not be
+			fileMust = len(hub.snapshot())
 			time.Sleep(2500 * time.Millisecond)
 			synctest.Wait()
 			files, _ := filepath.Glob(filepath.Join(w.TmpDir, "c05-events.log*"))
@@ -351,7 +355,7 @@ func runC05(t *testing.T, sc *Scenario) Result {
 	}
 	c05Monitor(obs, conns, &res)
 	if res.Verdict != "violation" && fileRead {
-		c05FileChannel(obs, fileLines, &res)
+		c05FileChannel(obs, fileMust, fileLines, &res)
 	}
 	if res.Verdict != "violation" && sc.ParamStr("workload", "") == "dialogue" {
 		// generator as oracle for the payload fields: where the grammar knows which bytes a command's event must
@@ -459,9 +463,10 @@ func boolInt(b bool) int {
 }
 
 // c05FileChannel: the lines the real file channel wrote are, as a multiset, the events as they were when sent.
-func c05FileChannel(obs *Obs, lines []string, res *Result) {
+func c05FileChannel(obs *Obs, must int, lines []string, res *Result) {
 	var want []string
-	for _, e := range obs.Events {
+	late := map[string]int{} // sent during the final wait: may be missing from the file
+	for i, e := range obs.Events {
 		if e.Channel != "cap" {
 			continue
 		}
@@ -469,6 +474,9 @@ func c05FileChannel(obs *Obs, lines []string, res *Result) {
 			return // (an event that does not serialise is the monitor's finding)
 		}
 		want = append(want, e.J)
+		if i >= must {
+			late[e.J]++
+		}
 	}
 	if len(lines) == 1 && lines[0] == "" {
 		lines = nil
@@ -481,6 +489,11 @@ func c05FileChannel(obs *Obs, lines []string, res *Result) {
 	for i < len(want) || j < len(got) {
 		switch {
 		case j >= len(got) || i < len(want) && want[i] < got[j]:
+			if late[want[i]] > 0 {
+				late[want[i]]--
+				want = append(want[:i:i], want[i+1:]...)
+				continue
+			}
 			onlyWant = append(onlyWant, want[i])
 			i++
 		case i >= len(want) || got[j] < want[i]:
